@@ -97,20 +97,20 @@ func C08_TokenEnds() {
 }
 
 var c08Faulty = []string{
-	"var x = 1 print x +",                   // at end
-	"print ( 1 + 2",                         // at end, missing )
-	"var x = 1 print x x",                   // expected statement at second x
-	"def t { f = 1 } bind t : 2 -> struct",  // selector
+	"var x = 1 print x +",                    // at end
+	"print ( 1 + 2",                          // at end, missing )
+	"var x = 1 print x x",                    // expected statement at second x
+	"def t { f = 1 } bind t : 2 -> struct",   // selector
 	"def t { f = 1 } bind t : all -> struct", // all needs slice
-	"var x = 1 var x = 2",                   // redeclaration
-	"print y",                               // undefined
-	"var x = 1 eval 1 = x",                  // invalid assignment target
-	"print 08",                              // invalid literal
-	"print 1 $",                             // lexical: unknown char
-	"def t f = 1 }",                         // expected {
-	"var = 1",                               // expected variable name
-	"eval 1 + $ print 2",                    // lexical failure where an operand is due
-	"var x = 1 print ( x $ ) print 3",       // lexical failure inside parentheses
+	"var x = 1 var x = 2",                    // redeclaration
+	"print y",                                // undefined
+	"var x = 1 eval 1 = x",                   // invalid assignment target
+	"print 08",                               // invalid literal
+	"print 1 $",                              // lexical: unknown char
+	"def t f = 1 }",                          // expected {
+	"var = 1",                                // expected variable name
+	"eval 1 + $ print 2",                     // lexical failure where an operand is due
+	"var x = 1 print ( x $ ) print 3",        // lexical failure inside parentheses
 }
 
 var c08Runtime = []string{
